@@ -127,7 +127,8 @@ fn push_piece(d: Dialect, t: &mut String, k: usize, nph: &mut usize, rng: &mut R
             "operator"
         }
         3 => {
-            t.push(' ');
+            // blanks of every kind the tokenizer knows (they are emitted unchanged)
+            t.push_str(*rng.pick(&[" ", " ", "\t", "\n", " \t ", "\r\n"]));
             "space"
         }
         4 => {
